@@ -287,3 +287,42 @@ Definition run_clist (expr : list N) : string :=
   | Some (Val []) => "-"
   | Some (Val l) => join " " (map (fun i => match i with IEntry e => show_centry e | IError e => "E" ++ show_Z (ecode e) end) l)
   end.
+
+(* C19 grammar-stream cases: the AST is rendered and read by the SPEC (ListGrammar.v); markers on any disagreement *)
+From VF Require Import ListGrammar.
+Definition run_nlspec (l : list nl_ast) (pybytes : list N) : string :=
+  let r := run_nlist pybytes in
+  let spec := match l with [] => "-" | _ => join " " (map (fun e => show_nentry (nl_denotes e)) l) end in
+  r ++ (if forallb wf_nl_entry l then "" else " !wf")
+    ++ (if bytes_eqb (render_nl l) pybytes then "" else " !render")
+    ++ (if String.eqb spec r then "" else " !entries").
+Definition run_clspec (l : list cl_ast) (pybytes : list N) : string :=
+  let r := run_clist pybytes in
+  let spec := match l with [] => "-" | _ => join " " (map (fun e => show_centry (cl_denotes e)) l) end in
+  r ++ (if forallb wf_cl_entry l then "" else " !wf")
+    ++ (if bytes_eqb (render_cl l) pybytes then "" else " !render")
+    ++ (if String.eqb spec r then "" else " !entries").
+
+(* ---- kinds unit / ampl / db (C18) ---- *)
+From Coq Require Import QArith.
+From VF Require Import SuffixSpec Suffix.
+Definition show_Q (x : Q) : string := let r := Qred x in "Q" ++ show_Z (Qnum r) ++ "/" ++ show_Z (Zpos (Qden r)).
+Definition show_resQ (r : res Q) : string := match r with Ok x => show_Q x | Err e => "E" ++ show_Z e end.
+Definition first_data (input : list N) (f : token -> string) : string :=
+  match tokenize_params input with
+  | Val (IOk t :: _) => if is_data t then f t else "N"
+  | Val (IErr e :: _) => "L" ++ show_Z e
+  | Panic s => "PANIC " ++ s
+  | _ => "N"
+  end.
+Definition run_unit (q : string) (input : list N) : string := first_data input (fun t => show_resQ (conv_unit q t)).
+Definition run_ampl (q : string) (input : list N) : string :=
+  first_data input (fun t => let '(c, r) := conv_amplitude q t in
+    match r with
+    | Ok x => (match c with AmpNone => "None " | AmpPeak => "Peak " | AmpPP => "PP " | AmpRms => "Rms " end) ++ show_Q x
+    | Err e => "E" ++ show_Z e
+    end).
+Definition run_db (q : string) (input : list N) : string :=
+  first_data input (fun t => match conv_db q t with
+    | DbNone v => "DbNone " ++ show_Q v | DbLinear x => "Linear " ++ show_Q x
+    | DbLog v r => "Log " ++ show_Q v ++ " " ++ show_Q r | DbErr e => "E" ++ show_Z e end).
